@@ -34,7 +34,8 @@ func (s *stack) size() int {
 }
 
 // depth-first search
-func (s *stack) dfs(current *Node) {
+// It returns false if no node directly above current is open (the hierarchy jumped).
+func (s *stack) dfs(current *Node) bool {
 	size := s.size()
 	for range size {
 		parent := s.pop()
@@ -45,12 +46,13 @@ func (s *stack) dfs(current *Node) {
 		// for same name on the same hierarchy
 		if child := parent.findChildByText(current.name); child != nil {
 			s.push(parent).push(child)
-			return
+			return true
 		}
 
 		parent.addChild(current)
 		current.setParent(parent)
 		s.push(parent).push(current)
-		return
+		return true
 	}
+	return false
 }
